@@ -442,6 +442,12 @@ class Ctx:
         self.violations.append({"what": what, "replay": path, "found_input": found_input})
 
     def finish(self, level="proof"):
+        if level not in ("exploration", "fault_enumeration", "model_checking", "proof", "translation_validation", "other"):
+            level = "proof"
+        # the evidence level follows the category claimed in the manifest fragment of the property
+        frag = os.path.join(VERIF, "manifest.d", self.pid + ".json")
+        if os.path.exists(frag):
+            level = json.load(open(frag)).get("category", level)
         gate = self.gate or {"ok": False, "theorems": [], "axioms": {}, "errors": ["proof gate not run"]}
         cov = self.coverage
         cov["distinct_nontrivial"] = len(self._distinct)
